@@ -17,6 +17,7 @@ inductive SExpr where
   | post (n : String)
   | un (e : SExpr)
   | bin (a b : SExpr)
+  | store (n : String) (i e : SExpr)      -- `n[i] = e`: arrays are values, so this writes the variable `n`
 deriving Repr, DecidableEq
 
 inductive SStmt where
@@ -72,6 +73,17 @@ def checkExpr (g : Scopes) : SExpr → Except ScopeErr Unit
     | none => .error (.undeclared n)
   | .un e => checkExpr g e
   | .bin a b => match checkExpr g a with | .ok () => checkExpr g b | .error e => .error e
+  | .store n i e =>
+    -- the analyser visits the collection, the index and the value first, then applies the `final` rule
+    match lookupSym g n with
+    | none => .error (.undeclared n)
+    | some f =>
+      match checkExpr g i with
+      | .error er => .error er
+      | .ok () =>
+        match checkExpr g e with
+        | .error er => .error er
+        | .ok () => if f then .error (.finalWrite n) else .ok ()
 
 /-- the analyser's walk; returns the symbol table after the statement -/
 def checkStmt (g : Scopes) : SStmt → Except ScopeErr Scopes
@@ -126,6 +138,7 @@ inductive WSExpr (g : Scopes) : SExpr → Prop
   | post {n} : lookupSym g n = some false → WSExpr g (.post n)
   | un {e} : WSExpr g e → WSExpr g (.un e)
   | bin {a b} : WSExpr g a → WSExpr g b → WSExpr g (.bin a b)
+  | store {n i e} : lookupSym g n = some false → WSExpr g i → WSExpr g e → WSExpr g (.store n i e)
 
 /-- `WS g s g'`: statement `s` obeys the declaration and `final` rules in table `g` and leaves table `g'` -/
 inductive WS : Scopes → SStmt → Scopes → Prop
